@@ -187,7 +187,8 @@ class EnvSpec:
             # cp312-cp312m-*
             # pp310-pypy310_pp75-*
             if abi_impl != "none":
-                if not abi_impl.startswith(python_tag.lower()):
+                # the ABI tag is the python tag plus optional flags (d, m, u, t)
+                if abi_impl.rstrip("dmut") != python_tag.lower():
                     return None
                 if (
                     free_threaded is not None
